@@ -50,3 +50,10 @@ package job
 //@ func IsActive
 //@   requires rj != nil
 //@   ensures [C05,C06,C15] result == IsActive(rj)
+
+// ---- task_status.go (TEMPORARILY ASSUMED for callers; see C09/C11) ---------------------------------------------
+//@ extern func UpdateJobTaskRefs
+//@   params rj, tasks
+//@   fresh result
+//@   ensures result != nil && result.Name == rj.Name && result.Namespace == rj.Namespace && result.UID == rj.UID && result.Spec == rj.Spec
+//@        && result.Finalizers == rj.Finalizers && result.DeletionTimestamp == rj.DeletionTimestamp && result.Status.StartTime == rj.Status.StartTime
